@@ -286,7 +286,6 @@ theorem kryGmres_ok (sc : SOps K) (rpb cpb nd : Nat) (A : Mat K) (pre : Precond 
     KryOK n m nd rpb cpb cpts B (kryGmres sc rpb cpb nd A pre B cpts) := by
   intro pat T it tol P i hpat hT h
   unfold kryGmres at h
-  dsimp only at h
   split at h
   · simp only [Option.some.injEq, Prod.mk.injEq] at h
     obtain ⟨rfl, _⟩ := h
